@@ -1156,8 +1156,8 @@ class HTMLDocument:
             and cast(Tag, content[0]).name == "html"
         ):
             html = cast(Tag, content[0])
-            html.attrs.update(**self._html_attr_args)
             html = html.tagify()
+            html.attrs.update(**self._html_attr_args)
             html = HTMLDocument._hoist_head_content(html, lib_prefix, include_version)
             return html
 
